@@ -254,14 +254,6 @@ def WF (st : State) : Prop := ∀ t ∈ st.tasks, t.id < st.nextId
 
 theorem WF_empty : WF State.empty := by intro t ht; cases ht
 
-/-- What an operation does to the task with a given id: the three outcomes of `step`. -/
-inductive Outcome (cfg : Cfg) (clock : Clock) (op : Op) (st : State) (id : Nat) (t : Task) : Option Task → Prop
-  | removed : op = .removeTask id → Outcome cfg clock op st id t none
-  | touched : op.target = some id → (∀ i, op ≠ .removeTask i) →
-      Outcome cfg clock op st id t
-        (some (taskEffect cfg clock op (preRead cfg clock op st).1 t (preRead cfg clock op st).2.clk).1)
-  | untouched : op.target ≠ some id → Outcome cfg clock op st id t (some t)
-
 theorem preRead_tasks (cfg : Cfg) (clock : Clock) (op : Op) (st : State) :
     (preRead cfg clock op st).2.tasks = st.tasks ∧ (preRead cfg clock op st).2.nextId = st.nextId ∧
     st.clk ≤ (preRead cfg clock op st).2.clk := by
